@@ -343,3 +343,18 @@ Proof.
   rewrite Forall_forall in F. destruct (F p I) as (W & Bp).
   apply extract_sound_legal in E; auto. destruct E as (E & L4). eauto.
 Qed.
+
+(* any number of configured prefixes: the name of an embedding under one of
+   them is translated (to the address extracted under the first prefix that
+   fits, which ptr_find_embedding_legal shows is again an embedding of it) *)
+Lemma ptr_target_translates c cp v4 :
+  In cp (c_prefixes c) -> legal_prefix (cp_net cp) -> bytes_ok (n_ip (cp_net cp)) ->
+  length v4 = 4%nat -> bytes_ok v4 -> should_exclude_a c v4 cp = false ->
+  exists w, ptr_target cur c (lower (arpa_name (embed (cp_net cp) v4))) = Some w.
+Proof.
+  intros Hin L Bp L4 B4 X.
+  assert (bytes_ok (embed (cp_net cp) v4)) as Be by (apply bytes_ok_embed_legal; auto).
+  unfold ptr_target. rewrite lower_arpa_name by exact Be.
+  rewrite parse_arpa_name; [| apply embed_layout_legal; auto | exact Be ].
+  eapply ptr_find_complete; [exact Hin | apply extract_embed_legal; auto | exact X].
+Qed.
